@@ -28,7 +28,7 @@ READERS = {
     "derives": {"TypeGenerator::generate_types_mod", "TypeGenerator::upcast_composite"},
     "substitutes": {"TypeGenerator::generate_types_mod", "TypeGenerator::type_path_maybe_with_substitutes"},
     "decoded_bits_type_path": {"TypeGenerator::resolve_type_path_recurse"},
-    "compact_as_type_path": {"TypeGenerator::add_as_compact_derive"},
+    "compact_as_type_path": {"TypeGenerator::create_type_ir", "TypeGenerator::upcast_composite"},
     "compact_type_path": {"TypeGenerator::resolve_type_path_recurse"},
     "insert_codec_attributes": {"TypeGenerator::create_type_ir", "TypeGenerator::upcast_composite"},
     "alloc_crate_path": {"TypeGenerator::type_path_maybe_with_substitutes", "scale_typegen::to_tokens", "substitutes::replace_path_params_recursively"},
@@ -178,7 +178,8 @@ def check(ctx, floors=True, only_literals=False):
         if "body" not in b or q.derived(b):
             continue
         for n in q.field_reads(b["body"], "settings::TypeGeneratorSettings"):
-            reads.setdefault(n["name"], set()).add(cshort(b["path"]))
+            for o in q.owners(ctx, b["path"], GEN):          # a private helper reads on behalf of the functions that call it
+                reads.setdefault(n["name"], set()).add(cshort(o))
     fields = [f["name"] for f in q.adt_by_name(P, "TypeGeneratorSettings", "scale_typegen")["variants"][0]["fields"]]
     ctx.count("settings fields", len(fields), 9)
     for f in fields:
